@@ -28,7 +28,9 @@ RULE = ("a FRESH real Factory per case; 2-6 synthetic engine classes (random ope
         "duplicates, the factory's own default list, rarely an unregistered name); requests = every operation mode x "
         "random kind (versions None/1..latest) x the requirements the mode admits (about 12% ill-shaped ones, 5% by "
         "name); pipelines of 1-3 compilation kinds over synthetic compilers with clone/unset/set transformers and the "
-        "built-in compilers (their resulting_problem_kind tabulated by reflection). Compared: _get_engine_class, the "
+        "built-in compilers (their resulting_problem_kind tabulated by reflection), on kinds of every version; a "
+        "deterministic sweep gives every built-in compiler its own supported kind, at the latest version and expressed "
+        "at each older explicit version (incl. the deprecated number features at version 1). Compared: _get_engine_class, the "
         "public entry point (OneshotPlanner/AnytimePlanner/PlanValidator/Compiler/SequentialSimulator/PlanRepairer/"
         "ActionSelector/PortfolioSelector) and get_all_applicable_engines -> selected name(s) or error class. "
         "Non-trivial = an engine other than the first of the preference list is selected, or the no-suitable-engine "
@@ -47,8 +49,6 @@ ASSUMPTIONS = [
     "`kind <= supported_kind()`",
     "Factory.Replanner is observed through _get_engine_class only: _get_engine adds a usage check on quality metrics "
     "for that mode which is outside this property",
-    "kinds with an explicit version older than 3 are not given to the built-in DurativeActionToProcesses compiler: its "
-    "declared resulting kind adds version-3 features, which the ProblemKind constructor rejects for such a kind",
     "pipeline cases use kinds without features deprecated at the kind's version: ProblemKind.__le__ strips such "
     "features from its operands in place, so a later stage would see a kind that depends on the earlier comparisons",
 ]
@@ -654,8 +654,9 @@ def pipe_case(rng, base, with_builtins):
         fs = set(["ACTION_BASED"] if rng.random() < 0.9 else []) | set(sub(rng, pool, 0.3))
         if rng.random() < 0.2:
             fs |= rand_feats(rng, allow_deprecated=False)
-        if "DURATIVE_ACTIONS_TO_PROCESSES" in cks and v is not None and v < 3:
-            v = rng.choice([None, LATEST_PROBLEM_KIND_VERSION])   # see ASSUMPTIONS
+        if v == 1 and rng.random() < 0.4:
+            # the deprecated way of describing numbers, valid at version 1 only (the upgrade rewrites it)
+            fs |= set(rng.sample(DEPRECATED, rng.randint(1, len(DEPRECATED))))
         kind = fit_version(rng, fs, v)
     else:
         chosen = []
@@ -760,9 +761,36 @@ def builtin_sweep(base, full):
                 yield finish_pipe(base, [], list(base["names"]), list(base["default_pref"]), rec["kind"], [ck, ck2])
 
 
+def old_version_sweep(base, full):
+    """deterministic: every built-in compiler on its own supported kind expressed at each OLDER explicit version (the
+    features that exist and are valid there; at version 1 also with the deprecated number features), alone and followed
+    by another built-in compilation kind, under the factory's default preference list: the declared resulting kinds of
+    the built-in compilers add features that do not exist at those versions"""
+    comp = [n for n in base["names"] if "compiler" in base["records"][n]["modes"]]
+    all_cks = sorted({c for n in comp for c in base["records"][n]["comps"]})
+    for n in comp:
+        rec = base["records"][n]
+        for v in range(1, LATEST_PROBLEM_KIND_VERSION):
+            fs = set(f for f in rec["kind"][0] if valid_at(f, v))
+            variants = [fs]
+            if v == 1 and ({"INT_FLUENTS", "REAL_FLUENTS"} & set(rec["kind"][0])):
+                variants.append(fs | set(DEPRECATED))
+            for ck in rec["comps"]:
+                for vi, kfs in enumerate(variants):
+                    yield finish_pipe(base, [], list(base["names"]), list(base["default_pref"]), (set(kfs), v), [ck])
+                    follow = [c for c in all_cks if c != ck]
+                    if not full and follow:
+                        i = all_cks.index(ck)
+                        follow = [follow[(5 * i + v + vi) % len(follow)]]
+                    for ck2 in follow:
+                        yield finish_pipe(base, [], list(base["names"]), list(base["default_pref"]), (set(kfs), v), [ck, ck2])
+
+
 def cases(rng, tier):
     base = base_factory_info()
     for c in builtin_sweep(base, tier != "quick"):
+        yield c
+    for c in old_version_sweep(base, tier != "quick"):
         yield c
     for i in range(60 if tier == "quick" else 1500):
         yield chain_case(rng, base)
@@ -821,6 +849,7 @@ def stats(payload, ans):
             t.append("pipe-selects-builtin")
         if any(e[8][0] == "table" for e in payload[1][1]):
             t.append("pipe-builtin-compilers")
+            t.append("pipe-builtin-compilers:kind-version-" + payload[2][2])
         return t
     return [tag, "byname:" + (ans[0] if isinstance(ans, list) else ans)]
 
